@@ -1,0 +1,76 @@
+//go:build verif
+
+package server
+
+import (
+	"sync/atomic"
+
+	"github.com/openconfig/gribigo/rib"
+
+	spb "github.com/openconfig/gribi/v1/proto/service"
+)
+
+// This file is compiled only with the "verif" build tag. It exposes read-only
+// snapshots of internal server state, and yield points, to external runtime monitors.
+
+// VerifElection returns the highest election ID learnt and the ID of the
+// current primary session.
+func (s *Server) VerifElection() (*spb.Uint128, string) {
+	s.elecMu.RLock()
+	defer s.elecMu.RUnlock()
+	var id *spb.Uint128
+	if s.curElecID != nil {
+		id = &spb.Uint128{High: s.curElecID.High, Low: s.curElecID.Low}
+	}
+	return id, s.curMaster
+}
+
+// VerifSession is a snapshot of the state of one live Modify session.
+type VerifSession struct {
+	ID           string
+	SetParams    bool
+	Persist      bool
+	ExpectElecID bool
+	FIBAck       bool
+	LastElecID   *spb.Uint128
+}
+
+// VerifSessions returns a snapshot of the live sessions.
+func (s *Server) VerifSessions() []VerifSession {
+	s.csMu.RLock()
+	defer s.csMu.RUnlock()
+	out := []VerifSession{}
+	for id, c := range s.cs {
+		v := VerifSession{ID: id, SetParams: c.setParams}
+		if c.params != nil {
+			v.Persist, v.ExpectElecID, v.FIBAck = c.params.Persist, c.params.ExpectElecID, c.params.FIBAck
+		}
+		if c.lastElecID != nil {
+			v.LastElecID = &spb.Uint128{High: c.lastElecID.High, Low: c.lastElecID.Low}
+		}
+		out = append(out, v)
+	}
+	return out
+}
+
+// VerifRIB returns the RIB the server writes to.
+func (s *Server) VerifRIB() *rib.RIB { return s.masterRIB }
+
+var verifPointFn atomic.Pointer[func(string)]
+
+// VerifSetPoint registers fn to be called at each named yield point. A nil fn
+// removes the registration.
+func VerifSetPoint(fn func(string)) {
+	if fn == nil {
+		verifPointFn.Store(nil)
+		return
+	}
+	verifPointFn.Store(&fn)
+}
+
+// verifPoint is a named yield point placed between critical sections.
+func verifPoint(name string) {
+	if f := verifPointFn.Load(); f != nil {
+		(*f)(name)
+	}
+}
